@@ -125,7 +125,7 @@ def walks_from_graph(init, last, out, rng, nrandom, cap=48):
     return cmds, len(env_edges)
 
 
-def nested_walks(init, last, out, rng, nrandom, cap=40):
+def nested_walks(init, last, out, rng, nrandom, cap=40, cover=True):
     """Walks of MCNestedGen's graph covering every (quiescent state, command) edge: each walk goes from the initial
     state to the nearest state with an uncovered command, takes it, and goes on from there (breadth-first, so walks
     are short) until nothing uncovered is reachable; plus seeded random walks."""
@@ -150,7 +150,7 @@ def nested_walks(init, last, out, rng, nrandom, cap=40):
         return None
 
     walks = []
-    while unc:
+    while unc and cover:
         p = [init]
         while len(p) < cap:
             q = nearest(p[-1])
@@ -348,7 +348,17 @@ def run(chk):
     expect = [("MCLifecyclePinned.cfg", "Deadlock reached", "pinned tree: Stop calls overlapping the clean-up deadlock"),
               ("MCLifecyclePinnedInv.cfg", "RunsAtMostOnce", "pinned tree: a finished context runs again"),
               ("MCLifecycleFixA.cfg", "RunsAtMostOnce", "only the Stop repair: a context that ended by itself runs again"),
-              ("MCLifecycleFixB.cfg", "Deadlock reached", "only the Run repair: the deadlock remains")]
+              ("MCLifecycleFixB.cfg", "Deadlock reached", "only the Run repair: the deadlock remains"),
+              ("MCNestedSeed.cfg", "Deadlock reached", "nested Close that only stops the inner contexts if none has ended yet: "
+                                                       "it waits for ever for an inner context nobody asked to stop"),
+              ("MCNestedFirstErr.cfg", "ClosedOnReturn", "nested Close that stops receiving at the first inner error: the outer "
+                                                         "run returns while an inner context is still running"),
+              ("MCNestedNoAwait.cfg", "ClosedOnReturn", "nested Close that stops the inner contexts without awaiting them")]
+    ninner, nnstop = (2, 1) if quick else (3, 1)      # MCNested.cfg (safety, exhaustive)
+    lnstop = 2                                         # MCNestedLive.cfg (liveness, 2 inner contexts; thorough tier only)
+    gnstop = 1 if quick else 2                         # MCNestedGen.cfg (generator, 2 inner contexts)
+    if quick:   # quick tier: only the seeded variant as vacuity guard of the nested model
+        expect = [e for e in expect if e[0] not in ("MCNestedFirstErr.cfg", "MCNestedNoAwait.cfg")]
 
     def design_job(job):
         cfg, ns, nr = job
@@ -360,12 +370,22 @@ def run(chk):
         if cfg == "MCLifecycleGen.cfg":
             dot = os.path.join(w, "gen.dot")
             return cfg, V.tlc(w, "MCLifecycleGen", cfg=cfg, workers=1, timeout=900, deadlock=False, dump=dot), dot
+        if cfg == "MCNestedGen.cfg":
+            dot = os.path.join(w, "gen.dot")
+            return cfg, V.tlc(w, "MCNestedGen", cfg=cfg, workers=1, timeout=900, deadlock=False, dump=dot), dot
+        if cfg in ("MCNested.cfg", "MCNestedLive.cfg"):
+            return cfg, V.tlc(w, "MCNested", cfg=cfg, workers=4, timeout=1500, extra=["-coverage", "1"]), None
+        if cfg.startswith("MCNested"):
+            return cfg, V.tlc(w, "MCNested", cfg=cfg, workers=2, timeout=600), None
         return cfg, V.tlc(w, "MCLifecycle", cfg=cfg, workers=2, timeout=600), None
 
-    pool = concurrent.futures.ThreadPoolExecutor(max_workers=12)
+    pool = concurrent.futures.ThreadPoolExecutor(max_workers=24)
     jobs = {}
     if not chk.replay:
-        todo = [("MCLifecycle.cfg", nstop, nrun), ("MCLifecycleGen.cfg", nstop, 2)] + [(c, 3, 2) for c, _, _ in expect]
+        # the generators first (the driver batches wait for them); for the nested configurations the numbers are (NStop, NInner)
+        todo = [("MCLifecycleGen.cfg", nstop, 2), ("MCNestedGen.cfg", gnstop, 2), ("MCLifecycle.cfg", nstop, nrun),
+                ("MCNested.cfg", nnstop, ninner)] + ([] if quick else [("MCNestedLive.cfg", lnstop, 2)]) + [
+                    (c, (1 if quick else 2) if c.startswith("MCNested") else 3, 2) for c, _, _ in expect]
         jobs = {j[0]: pool.submit(design_job, j) for j in todo}
     # ---- 2. build the driver (no cgo: the Go runtime's deadlock detector must be active)
     drv = V.build_driver("c17drv", chk.bindir, tags="verif,netgo,osusergo")
@@ -381,7 +401,8 @@ def run(chk):
             for c in cases:
                 f.write(json.dumps(c) + "\n")
         rc, o = V.run([drv, "-mode", "sup", "-cases", cf, "-out", of, "-stall",
-                       "240" if name in ("proto", "free-leaf", "free-maps", "replay") else "150"],
+                       "240" if name in ("proto", "nproto", "free-leaf", "free-maps", "replay") else "150",
+                       "-maxdeadlocks", "10" if name == "nproto" else "0"],
                       timeout=1500 if quick else 2400)
         if rc != 0:
             return name, cases, [], "FAILED rc=%s: %s" % (rc, o[-1500:])
@@ -407,11 +428,36 @@ def run(chk):
         chk.notes["generator_graph"] = {"states": len(last), "command_edges": nedges, "walks": len(cmds)}
         futs.append(pool.submit(run_batch, ("proto", [{"id": i + 1, "mode": "proto", "mix": "maps", "bound": BOUND,
                                                        "steps": c, "closeerr": i % 3 == 0} for i, c in enumerate(cmds)])))
+        # nested cases: walks of MCNestedGen (2 inner contexts), run on 2 and on 3 inner contexts
+        _, res, _ = jobs["MCNestedGen.cfg"].result()
+        chk.add_tlc("MCNestedGen inner=2 stops=%d (generator: harness commands incl. the gates of the inner contexts)" % gnstop, res)
+        if not res.ok:
+            raise V.Inconclusive("nested generator TLC run failed: %s" % (res.error or res.violation))
+        init, last, out = parse_dot(os.path.join(chk.tmp, "tlc-MCNestedGen.cfg", "gen.dot"))
+        ncmds, nedges = nested_walks(init, last, out, rng, 0)
+        ncover = len(ncmds)
+        if quick:   # a third of the edge cover per seed: three consecutive seeds replay every (state, command) edge
+            ncmds = [c for n, c in enumerate(ncmds) if (n + chk.seed) % 3 == 0]
+        ncmds += [c for c in nested_walks(init, last, out, rng, 40 if quick else 600, cover=False)[0] if c not in ncmds]
+        chk.notes["nested_generator_graph"] = {"states": len(last), "command_edges": nedges, "walks_covering_every_edge": ncover,
+                                               "walks_replayed": len(ncmds)}
+        futs.append(pool.submit(run_batch, ("nproto", nested_cases(ncmds, rng, 700001))))
         # design-level results
+        for cfg, name in (("MCNested.cfg", "MCNested ok inner=%d stops=%d: no deadlock, ClosedAtMostOnce, ClosedOnReturn (every inner "
+                           "context stopped AND awaited), NoLateInnerCommit, StopMeansStopped, ErrChDrained" % (ninner, nnstop)),
+                          ("MCNestedLive.cfg", "MCNested ok inner=2 stops=%d: liveness EveryStopReturns, CleanupCompletes, "
+                           "InnerStopsReturn" % lnstop)):
+            if cfg not in jobs:
+                continue
+            _, res, _ = jobs[cfg].result()
+            chk.add_tlc(name, res)
+            zeros = [z for z in res.coverage_zero() if "NestedLifecycle" in z]
+            if cfg == "MCNested.cfg":
+                chk.notes["coverage_zero_nested_ok_variant"] = zeros[:8]  # expected: only branches of the broken variants
         _, res, _ = jobs["MCLifecycle.cfg"].result()
         chk.add_tlc("MCLifecycle fixed k=%d runs=%d: no deadlock, RunsAtMostOnce, NoLateCommit, ClosedAtMostOnce, "
                     "ClosedOnReturn, StopMeansStopped, SendNeverBlocks, liveness EveryStopReturns" % (nstop, nrun), res)
-        chk.exhaustive = res.ok
+        chk.exhaustive = res.ok and jobs["MCNested.cfg"].result()[1].ok
         zeros = [z for z in res.coverage_zero() if "Lifecycle" in z]
         chk.notes["coverage_zero_fixed_variant"] = zeros[:8]  # expected: only the close-of-closed-channel branch
         for cfg, want, what in expect:
@@ -433,10 +479,11 @@ def run(chk):
         for s in ss:
             specs[id(s)] = by_id.get(s[0].get("id"))
         stuck = [s for s in ss if s[-1].get("why") == "watchdog"]
-        if stuck or len(ss) < len(cases):
+        skipped = int((re.findall(r"skipped=(\d+)", summary) or ["0"])[-1])   # cases left out after 10 confirmed deadlocks
+        if stuck or len(ss) + skipped < len(cases):
             chk.inconclusive.append("c17drv batch %s: %d case(s) made no progress and were given up, %d not executed (the Go "
                                     "runtime cannot prove a deadlock while timers / the netpoller are alive)" % (
-                                        name, len(stuck), len(cases) - len(ss)))
+                                        name, len(stuck), len(cases) - len(ss) - skipped))
         segs += [s for s in ss if s[-1].get("why") != "watchdog"]
     incomplete = [s for s in segs if s[-1].get("e") != "end"]
     if incomplete:
@@ -471,24 +518,31 @@ def run(chk):
     chk.notes["violating_cases_per_class"] = reported
 
     # ---- 6. M-level conformance (drift only)
-    good = [s for s in segs if id(s) not in bad_ids]
-    parts = [good[i::chunks] for i in range(chunks) if good[i::chunks]]
+    good = [s for s in segs if id(s) not in bad_ids and s[0].get("mode") != "nproto"]
+    parts = [("Lifecycle.tla (Variant fixed)", "LifecycleTrace", "LifecycleTrace.cfg", good[i::chunks])
+             for i in range(chunks) if good[i::chunks]]
+    for k in (2, 3):   # nested cases: the number of inner contexts is a constant of the model
+        ngood = [s for s in segs if id(s) not in bad_ids and s[0].get("mode") == "nproto" and s[0].get("mix") == "nested%d" % k]
+        nch = max(1, chunks // 2)
+        parts += [("NestedLifecycle.tla (Variant ok, %d inner contexts)" % k, "NestedTrace", "NestedTrace%d.cfg" % k, ngood[i::nch])
+                  for i in range(nch) if ngood[i::nch]]
     macc = 0
     if True:
-        for acc, rej, st, tr, errs in pool.map(lambda p: mfold(work, p), parts):
+        for (spec, _, _, _), (acc, rej, st, tr, errs) in zip(parts, pool.map(
+                lambda p: mfold(work, p[3], module=p[1], cfg=p[2]), parts)):
             macc += acc
             chk.states += st
             chk.transitions += tr
             for s in rej:
-                chk.drift.append({"spec": "Lifecycle.tla (Variant fixed)", "case": s[0].get("id"), "mode": s[0].get("mode"),
+                chk.drift.append({"spec": spec, "case": s[0].get("id"), "mode": s[0].get("mode"),
                                   "mix": s[0].get("mix"), "events": len(s)})
             for e in errs:
-                chk.drift.append({"spec": "Lifecycle.tla", "error": e})
+                chk.drift.append({"spec": spec, "error": e})
     chk.notes["m_level_traces_accepted"] = macc
     chk.notes["cases_recorded"] = len(segs)
     chk.notes["events_recorded"] = sum(len(s) for s in segs)
     chk.notes["deadlocks_reported_by_go_runtime"] = sum(1 for s in segs if s[-1].get("why") == "deadlock")
-    for s in (segs[:1] + [x for x in segs if x[0].get("mode") == "free"][:2] + segs[-1:]):
+    for s in (segs[:1] + [x for x in segs if x[0].get("mode") == "free"][:2] + [x for x in segs if x[0].get("mode") == "nproto"][:2]):
         sp = dict(specs.get(id(s)) or {})
         if len(sp.get("script", [])) > 10:
             sp["script"] = sp["script"][:8] + ["... (%d kinds in all)" % len(sp["script"])]
@@ -500,11 +554,16 @@ def run(chk):
         "contexts over real FD / TCP resources keep timers or the netpoller alive, so there a deadlock would end in INCONCLUSIVE",
         "StopsAtLabelBoundary: at most %d section begins after a Stop call was seen parked (slack over 'the next label boundary')" % BOUND,
         "hand-built archetype A (one looping label + Done/Error/assert endings shaped like generated code)",
+        "nested cases: hand-built inner archetypes that do not serve the nested-archetype request protocol (the outer sections "
+        "do not use the nested resource), so no timer is armed and a hang of nestedArchetype.Close is proved by the Go runtime; "
+        "after the walk every still running inner context is granted %d further sections, one gate at a time and only when every "
+        "goroutine is parked (a context that was asked to stop leaves at its next loop head)" % (BOUND + 1),
     ]
     chk.gaps += ["Close of individual TCP mailbox elements is not counted (constructors unexported); the Mailboxes map is counted as a whole",
                  "context-internal LocalArchetypeResources (.pc, .stack, ref cells) are not instrumented",
                  "interleavings inside Run's check/poll/notify regions are covered by TLC exhaustively and by free-running races, not by deterministic replay"]
     return chk.finish(rule="edge-covering + seeded random walks of MCLifecycleGen's state graph replayed command by command on the real "
-                           "MPCalContext (gates, goroutine states), plus seeded free-running races of Run/Stop over leaf, map, nested, "
+                           "MPCalContext (gates, goroutine states), the same for MCNestedGen (outer context + resources.NewNested around "
+                           "2-3 gated inner contexts, each of which may end by itself at any point), plus seeded free-running races of Run/Stop over leaf, map, nested, "
                            "FD and TCP resources; every recorded execution folded by TLC into LifecycleObs.tla (verdicts) and "
                            "LifecycleTrace.tla (conformance to Lifecycle.tla)")
